@@ -246,9 +246,9 @@ theorem schedule_origin_below (next : List Nat) (base : Nat) (a : DAttr) (t : Na
 
 /-- non-vacuity: a DIE with both references and an inherited attribute on both sides -/
 example :
-    let t1 : Die := .mk 20 0x34 false [⟨3, 8, none⟩] []
-    let t2 : Die := .mk 30 0x34 false [⟨3, 14, none⟩] []
-    let d : Die := .mk 40 0x34 false [⟨DW_AT_abstract_origin, 19, some 30⟩, ⟨DW_AT_specification, 19, some 20⟩] []
+    let t1 : Die := .mk 20 0x34 false [{ name := 3, form := 8, ref := none }] []
+    let t2 : Die := .mk 30 0x34 false [{ name := 3, form := 14, ref := none }] []
+    let d : Die := .mk 40 0x34 false [{ name := DW_AT_abstract_origin, form := 19, ref := some 30 }, { name := DW_AT_specification, form := 19, ref := some 20 }] []
     let f : Forest := [⟨0, 4, .mk 11 0x11 true [] [t1, t2, d]⟩]
     (findAttr f 10 d 3).map (·.1) = some 20 ∧
     ((attrsCooked f 50 d).find? (fun x => x.2.name == 3)).map (·.1) = some 20 := by
